@@ -6,6 +6,7 @@
 //@check accept_reject_bounds_roundtrip serves=C14,C10,C01 fn=PointCloudWriter::{add_point,write_buffer_to_disk,finalize} note="BOUNDED: prototype X,Y,Z (f64) + Intensity Integer 0..=100 + ColorRed Integer -5..=1000; 3 deterministic point streams of 0, 7 and 3000 points (several packets) with every 3rd/5th point invalid in a LATER attribute (out of range above / below, wrong variant); bounds, record count and raw read-back compared"
 //@check roundtrip_any_section_alignment serves=C01,C02,C10 fn=PointCloudWriter::{new,write_buffer_to_disk,finalize} note="BOUNDED: a blob of every 4-aligned payload length 0..2100 in front of the point cloud (moves section header, packet header, stream-size table and stream data across page boundaries), 40 points, raw read-back and CRC validation compared"
 //@check wide_integers_and_all_bounds serves=C14,C12,C01,C10 fn=PointCloudWriter::add_point,BitPack::unpack_ints,BitPack::unpack_scaled_ints,integer_bits,serialize_integer note="BOUNDED: spherical coordinates (f64) + row / column / return index records with ranges 0..=i64::MAX, i64::MIN..=i64::MAX, -10..=i64::MAX + a ScaledInteger intensity over -2^62..=2^62; 9 points with values at both ends of every range, 2^53+1 and neighbours; spherical and index bounds exact over the points; raw read-back exact"
+//@check point_counts_around_packet_capacity serves=C01,C02 fn=PointCloudWriter::{add_point,write_buffer_to_disk,finalize,get_max_packet_points} note="BOUNDED: prototype 3 x f32 + 11-bit integer (packets hold ~4861 points) with every point count 4850..=4870 and 9715..=9730, and 3 x 19-bit scaled integers with 9120..=9130: counts that are exact multiples of the packet capacity, one less, one more (last partial flush with an empty point buffer); raw read-back exact"
 //@module
     use crate::{E57Reader, E57Writer, RecordDataType, RecordName, RecordValue};
     use std::io::Cursor;
@@ -180,5 +181,50 @@
         assert_eq!(raw.len(), 9);
         for (i, (a, b)) in raw.iter().zip(written.iter()).enumerate() {
             assert!(a == b, "raw point {i}: read {a:?}, written {b:?}");
+        }
+    }
+
+    #[test]
+    fn point_counts_around_packet_capacity() {
+        let protos: Vec<(Vec<Record>, Vec<usize>)> = vec![
+            (vec![Record::CARTESIAN_X_F32, Record::CARTESIAN_Y_F32, Record::CARTESIAN_Z_F32,
+                  Record { name: RecordName::Intensity, data_type: RecordDataType::Integer { min: 0, max: 2047 } }],
+             (4850..=4870).chain(9715..=9730).collect()),
+            (vec![Record { name: RecordName::CartesianX, data_type: RecordDataType::ScaledInteger { min: 0, max: 524287, scale: 0.001, offset: 0.0 } },
+                  Record { name: RecordName::CartesianY, data_type: RecordDataType::ScaledInteger { min: 0, max: 524287, scale: 0.001, offset: 0.0 } },
+                  Record { name: RecordName::CartesianZ, data_type: RecordDataType::ScaledInteger { min: 0, max: 524287, scale: 0.001, offset: 0.0 } }],
+             (9120..=9130).collect()),
+        ];
+        for (pi, (proto, counts)) in protos.into_iter().enumerate() {
+            for n in counts {
+                let what = format!("prototype {pi}, {n} points");
+                let mut file = Cursor::new(Vec::new());
+                let mut written: Vec<Vec<RecordValue>> = Vec::with_capacity(n);
+                {
+                    let mut w = E57Writer::new(&mut file, "guid-file").expect(&what);
+                    let mut pcw = w.add_pointcloud("guid-pc", proto.clone()).expect(&what);
+                    for i in 0..n {
+                        let p = if pi == 0 {
+                            vec![RecordValue::Single(i as f32), RecordValue::Single(0.5), RecordValue::Single(-(i as f32)), RecordValue::Integer((i % 2048) as i64)]
+                        } else {
+                            vec![RecordValue::ScaledInteger((i % 524288) as i64), RecordValue::ScaledInteger(((i * 7) % 524288) as i64), RecordValue::ScaledInteger(524287 - (i % 524288) as i64)]
+                        };
+                        pcw.add_point(p.clone()).expect(&what);
+                        written.push(p);
+                    }
+                    pcw.finalize().expect(&what);
+                    w.finalize().expect(&what);
+                }
+                let mut r = E57Reader::new(Cursor::new(file.into_inner())).expect(&what);
+                let pc = r.pointclouds()[0].clone();
+                assert_eq!(pc.records as usize, n, "{what}");
+                let mut got = 0usize;
+                for (i, p) in r.pointcloud_raw(&pc).expect(&what).enumerate() {
+                    let p = p.unwrap_or_else(|e| panic!("{what}: reading point {i} failed: {e}"));
+                    assert!(p == written[i], "{what}: point {i} differs");
+                    got += 1;
+                }
+                assert_eq!(got, n, "{what}: number of points read back");
+            }
         }
     }
